@@ -3,24 +3,24 @@ from pyrates.backend.parser import split_equation, ExpressionParser
 from pyrates.backend.computegraph import ComputeGraph
 
 POOL = ['x', 'x_v1', 'x_v2', 'x_v1_v1', 'y', 'y_v1']
-TIMEOUTS = {'h_unique_labels': 90, 'h_split_equation': 90, 'h_lhs_forms': 90}
+TIMEOUTS = {'h_unique_labels': 150, 'h_split_equation': 90, 'h_lhs_forms': 90}
 
 
-def h_unique_labels(i: int, j: int, k: int) -> bool:
+def h_unique_labels(i: int, j: int, k: int, l: int) -> bool:
     """
-    pre: 0 <= i < 6 and 0 <= j < 6 and 0 <= k < 6
+    pre: 0 <= i < 6 and 0 <= j < 6 and 0 <= k < 6 and 0 <= l < 6
     post: _
     """
     cg = object.__new__(ComputeGraph)
     cg._node_names = {}
     out = [cg._generate_unique_label(POOL[i]), cg._generate_unique_label(POOL[j]),
-           cg._generate_unique_label(POOL[k])]
-    return len(set(out)) == 3 and out[0] == POOL[i]
+           cg._generate_unique_label(POOL[k]), cg._generate_unique_label(POOL[l])]
+    return len(set(out)) == 4 and out[0] == POOL[i]
 
 
-def twin_unique_labels(i: int, j: int, k: int) -> bool:
+def twin_unique_labels(i: int, j: int, k: int, l: int) -> bool:
     """
-    pre: 0 <= i < 6 and 0 <= j < 6 and 0 <= k < 6
+    pre: 0 <= i < 6 and 0 <= j < 6 and 0 <= k < 6 and 0 <= l < 6
     post: _
     """
     cg = object.__new__(ComputeGraph)
